@@ -587,7 +587,7 @@ fn get_fields(
                         ParamValue::Null => unreachable!(),
                     };
                     q.push_str(&format!(
-                        "'{}', Ifnull({},{}",
+                        "'{}', Ifnull({},{})",
                         &field.name(),
                         select,
                         default
